@@ -286,6 +286,8 @@ WT_TEXT = """FWT DEFINITIONS ::= BEGIN
   IX ::= INTEGER (0..7, ...)
   IN ::= INTEGER { one(1), two(2) }
   I8 ::= INTEGER (-128..127)
+  IP ::= INTEGER (0..MAX)
+  SP ::= SEQUENCE { a INTEGER (0..MAX), b BOOLEAN OPTIONAL, c INTEGER (0..MAX) }
   RS ::= SEQUENCE { r REAL, e E, i INTEGER, o REAL OPTIONAL, d INTEGER DEFAULT 5, de E DEFAULT z }
   RC ::= CHOICE { r REAL, i INTEGER, e E, x [0] EX }
   RL ::= SEQUENCE OF REAL
@@ -371,7 +373,7 @@ def der_real(x):
 
 
 def widetypes_module(rng, tier):
-    names = ["R", "E", "EH", "EX", "I", "IL", "IU", "IB", "IS", "IX", "IN", "I8", "RS", "RC", "RL", "EL", "IQ"]
+    names = ["R", "E", "EH", "EX", "I", "IL", "IU", "IB", "IS", "IX", "IN", "I8", "IP", "SP", "RS", "RC", "RL", "EL", "IQ"]
     seq = lambda *items: bytes([0x30]) + der_len(sum(len(i) for i in items)) + b"".join(items)
     vals, meta = [], {}
 
@@ -415,6 +417,14 @@ def widetypes_module(rng, tier):
             add("I8", der_int(v))
     for v in (0, 7, 8, -1, 300, 2**31, -2**63, 2**63 - 1):
         add("IX", der_int(v))
+    # semi-constrained (lb..MAX): `unsigned long` + field_unsigned natively, INTEGER_t without specifics under -fwide-types; values whose
+    # minimal two's-complement form starts with a 00 octet (128.., 32768.., 2^23.., 2^31..) either side of every octet boundary, below 2^63
+    # (from 2^63 on: C13-unsigned-native-ge-2^63, witness layer)
+    semi = [0, 1, 127, 128, 255, 256, 32767, 32768, 65535, 65536, 2**23 - 1, 2**23, 2**24 - 1, 2**24, 2**31 - 1, 2**31, 2**32 - 1, 2**32, 2**39, 2**47, 2**55, 2**62, 2**63 - 1]
+    for v in semi:
+        add("IP", der_int(v))
+    for k, v in enumerate(semi):
+        add("SP", seq(der_int(v), *([bytes([1, 1, 255])] if k % 2 else []), der_int(semi[-1 - k])))
     for v in (0, 1, 2, 3, -1):
         add("IN", der_int(v))
     E = lambda v: der_int(v, 0x0a)
